@@ -538,7 +538,8 @@ func (c *admCase) waitPullStop(a *admAttempt, from int) {
 		c.nh.mu.Lock()
 		found := false
 		for _, e := range c.nh.events[from:] {
-			if e.kind == "RE" && e.stream == a.stream {
+			// (the end of a pull whose url could not be parsed is reported with an empty stream name: match its key)
+			if e.kind == "RE" && (e.stream == a.stream || (a.key != "" && e.key == a.key)) {
 				found = true
 				if a.key == "" {
 					a.key = e.key
@@ -875,7 +876,16 @@ func (c *admCase) doOp(op string) string {
 		if _, dup := c.sess[name]; dup {
 			return "x"
 		}
-		resp := c.sm.CtrlStartRtpPub(base.ApiCtrlStartRtpPubReq{StreamName: stream(1), Port: 0, TimeoutMs: 0, IsTcpFlag: 0})
+		port := 0
+		if len(f) > 3 && f[3] == "b" { // pp.<stream>.<sid>.b: a udp port that cannot be bound (the harness holds it)
+			p, release, err := admBusyPort(false)
+			if err != nil {
+				return "err-busy-port"
+			}
+			defer release()
+			port = p
+		}
+		resp := c.sm.CtrlStartRtpPub(base.ApiCtrlStartRtpPubReq{StreamName: stream(1), Port: port, TimeoutMs: 0, IsTcpFlag: 0})
 		return c.rtpPubResult(name, stream(1), resp)
 	case "hpp": // start_rtp_pub through the HTTP API: hpp.<stream|a>.<sid>.<port>.<timeout_ms>.<is_tcp_flag> (fields: a z q or an integer)
 		name := "c" + f[2]
@@ -886,7 +896,18 @@ func (c *admCase) doOp(op string) string {
 		if f[1] != "a" {
 			kv = append(kv, `"stream_name":`+strconv.Quote(stream(1)))
 		}
-		kv = admJsonField(kv, "port", f[3])
+		if f[3] == "b" {
+			// an explicit port that cannot be bound: the harness holds a socket of the kind the request asks for on it
+			tcp := f[5] != "a" && f[5] != "z" && f[5] != "q" && admInt(f[5]) != 0
+			p, release, err := admBusyPort(tcp)
+			if err != nil {
+				return "err-busy-port"
+			}
+			defer release()
+			kv = append(kv, `"port":`+strconv.Itoa(p))
+		} else {
+			kv = admJsonField(kv, "port", f[3])
+		}
 		kv = admJsonField(kv, "timeout_ms", f[4])
 		kv = admJsonField(kv, "is_tcp_flag", f[5])
 		var resp base.ApiCtrlStartRtpPubResp
@@ -965,6 +986,26 @@ func (c *admCase) doOp(op string) string {
 		scheme := "rtmp://"
 		if isRtsp {
 			scheme = "rtsp://"
+		}
+		if len(f) > 4 && (f[4] == "bad" || f[4] == "badrtsp" || f[4] == "http") {
+			// a url that cannot be parsed (rtmp / rtsp) or whose scheme lal has no pull session for: the attempt starts
+			// (start_relay_pull answers with its session id) and fails by itself before any connection exists
+			url := map[string]string{"bad": "rtmp://[::1/live/", "badrtsp": "rtsp://[::1/live/", "http": "http://127.0.0.1:9/live/"}[f[4]] + stream(1)
+			from := c.nseen
+			resp := c.sm.CtrlStartRelayPull(base.ApiCtrlStartRelayPullReq{Url: url, StreamName: stream(1),
+				PullTimeoutMs: 30000, PullRetryNum: admInt(f[2]), AutoStopPullAfterNoOutMs: admInt(f[3]), RtspMode: base.RtspModeTcp})
+			st := stream(1)
+			c.rtspUrl[st] = f[4] != "bad"
+			if resp.ErrorCode == base.ErrorCodeSucc && resp.Data.SessionId != "" {
+				c.attCount[st]++
+				na := &admAttempt{name: fmt.Sprintf("p%s_%d", f[1], c.attCount[st]), stream: st, state: "released", key: resp.Data.SessionId, rtsp: f[4] != "bad"}
+				c.keyName[na.key] = na.name
+				c.att[st] = na
+				c.attByName[na.name] = na
+				c.waitPullStop(na, from)
+				return "0:" + na.name
+			}
+			return strconv.Itoa(resp.ErrorCode) + ":" + admReason(resp.Desp)
 		}
 		req := base.ApiCtrlStartRelayPullReq{Url: scheme + l.addr() + "/live/" + stream(1), StreamName: stream(1),
 			PullTimeoutMs: 30000, PullRetryNum: admInt(f[2]), AutoStopPullAfterNoOutMs: admInt(f[3]), RtspMode: base.RtspModeTcp}
@@ -1475,6 +1516,22 @@ func (k *admCorkConn) readAfterFlush() int {
 	k.mu.Lock()
 	defer k.mu.Unlock()
 	return k.after
+}
+
+// admBusyPort binds a udp or tcp port and holds it: a start_rtp_pub that asks for this port cannot listen.
+func admBusyPort(tcp bool) (int, func(), error) {
+	if tcp {
+		l, err := net.Listen("tcp", ":0")
+		if err != nil {
+			return 0, nil, err
+		}
+		return l.Addr().(*net.TCPAddr).Port, func() { _ = l.Close() }, nil
+	}
+	u, err := net.ListenUDP("udp", &net.UDPAddr{})
+	if err != nil {
+		return 0, nil, err
+	}
+	return u.LocalAddr().(*net.UDPAddr).Port, func() { _ = u.Close() }, nil
 }
 
 func admReason(desp string) string {
